@@ -804,3 +804,70 @@ Proof.
   exists l2. split; [|split; assumption].
   exists lam, cep, lid, ceid, cslots. repeat split; assumption.
 Qed.
+
+(* ------------------------------------------------------------------ the static facts, at their source *)
+(* Where the compiler takes the indices from (Model/Compile.v): [envmap_slot] = position in the envmap,
+   [envmap_new] enumerates the arguments and looks the free symbols up in the enclosing lambda.  These are
+   the facts a compile walk would propagate to [lex_okb] / [arg_okb] / [iof_okb] of every stored lambda. *)
+Lemma find_index_bound {A} (p : A -> bool) (l : list A) :
+  forall i n, find_index p l i = Some n -> i <= n /\ n < i + len l.
+Proof.
+  induction l as [|x r IH]; intros i n H; cbn [find_index] in H; [discriminate|].
+  assert (Hl : len (x :: r) = len r + 1) by (unfold len; cbn [length]; lia).
+  destruct (p x).
+  - injection H as <-. lia.
+  - apply IH in H. lia.
+Qed.
+
+(* the operand the compiler emits for a variable reference in lambda l respects l's envmap *)
+Theorem location_operand_lex l sym s v s' :
+  location_operand l sym s = ROk v s' -> lex_slotb (len (l_envmap l)) v = true.
+Proof.
+  unfold location_operand, binding_location, envmap_slot.
+  destruct (find_index (fun e => vptr_eqb (fst e) sym) (l_envmap l) 0) as [n|] eqn:E.
+  - intros H. unfold ret in H. injection H as <- _. cbn [lex_slotb].
+    apply find_index_bound in E. apply N.ltb_lt. lia.
+  - destruct (find_index (fun a => vptr_eqb a sym) (l_args l) 0).
+    + intros H. unfold ret in H. injection H as <- _. reflexivity.
+    + destruct sym; try discriminate. intros H. apply bind_ok in H as (slot & s1 & _ & H).
+      unfold ret in H. injection H as <- _. reflexivity.
+Qed.
+
+(* the envmap of a lambda expression: argument entries are arguments, IofEnvironment entries are slots of
+   the ENCLOSING lambda's envmap (= the size of the environment CLOSURE runs with) *)
+Theorem lambda_from_iof_static args internal iof free va :
+  arg_okb (lambda_from_iof args internal iof free va) = true /\
+  iof_okb (len (l_envmap iof)) (l_envmap (lambda_from_iof args internal iof free va)) = true.
+Proof.
+  unfold arg_okb, iof_okb, lambda_from_iof. cbn [l_envmap l_args]. unfold envmap_new.
+  set (enum := fix enum (l : list vcell) (i : N) {struct l} : list (vcell * bsrc) :=
+                 match l with [] => [] | x :: r => (x, BArgument i) :: enum r (i + 1) end).
+  assert (He : forall l i e, In e (enum l i) -> exists a, snd e = BArgument a /\ a < i + len l).
+  { induction l as [|x r IH]; intros i e H; cbn [enum In] in H; [contradiction|].
+    assert (Hl : len (x :: r) = len r + 1) by (unfold len; cbn [length]; lia).
+    destruct H as [<-|H]; [exists i; cbn [snd]; split; [reflexivity|lia]|].
+    apply IH in H as (a & Ea & Hlt). exists a. split; [exact Ea|lia]. }
+  assert (Hf : forall e, In e (flat_map (fun sym =>
+       match envmap_slot (l_envmap iof) sym with
+       | Some slot => [(sym, BIofEnvironment slot)]
+       | None => match find_index (fun a => vptr_eqb a sym) (l_args iof) 0 with
+                 | Some n => [(sym, BIofArgument n)]
+                 | None => []
+                 end
+       end) free) ->
+       (exists slot, snd e = BIofEnvironment slot /\ slot < len (l_envmap iof)) \/ (exists n, snd e = BIofArgument n)).
+  { intros e H. apply in_flat_map in H as (sym & _ & H). unfold envmap_slot in H.
+    destruct (find_index (fun e0 => vptr_eqb (fst e0) sym) (l_envmap iof) 0) as [slot|] eqn:E.
+    - destruct H as [<-|[]]. left. exists slot. split; [reflexivity|]. apply find_index_bound in E. lia.
+    - destruct (find_index (fun a => vptr_eqb a sym) (l_args iof) 0) as [n|]; [|contradiction].
+      destruct H as [<-|[]]. right. exists n. reflexivity. }
+  split; apply forallb_forall; intros e H; apply in_app_or in H as [H|H].
+  - apply He in H as (a & -> & Hlt). apply N.leb_le. lia.
+  - apply in_app_or in H as [H|H].
+    + apply in_map_iff in H as (x & <- & _). reflexivity.
+    + apply Hf in H as [(slot & -> & _)|(n & ->)]; reflexivity.
+  - apply He in H as (a & -> & _). reflexivity.
+  - apply in_app_or in H as [H|H].
+    + apply in_map_iff in H as (x & <- & _). reflexivity.
+    + apply Hf in H as [(slot & -> & Hlt)|(n & ->)]; [apply N.ltb_lt; exact Hlt|reflexivity].
+Qed.
